@@ -56,7 +56,7 @@ CHECKS = {
    note=""),
  "C13": dict(engine="E4 operation-sequence explorer", cat="model_checking", ref="DESIGN.md §3 C13",
    technique="all solve-call histories up to depth d over a 5-problem alphabet on one solver, with every cancellation index, sync and async",
-   text="All sequences of solve calls (length <= 2 quick / 3 thorough) over a per-universe alphabet of 5 problems on ONE solver, optionally with one call cancelled at every poll index; async: [call cancelled at poll k under every schedule with <= 1 deviation, then a second call]. Every call must terminate and agree with a fresh solver, solutions must be valid, and metadata obtained earlier is never requested again; the async histories are also run with a provider whose sort_candidates fetches dependencies through the cache.",
+   text="All sequences of solve calls (length <= 2 quick / 3 thorough) over a per-universe alphabet of 5 problems on ONE solver, optionally with one call cancelled at every poll index; async: [call cancelled at poll k under every schedule with <= 1 deviation, then a second call]. Every call must terminate and agree with a fresh solver, solutions must be valid, metadata obtained earlier is never requested again, and the conflict graph reported by a later Unsolvable call must pass C03's oracle (truthful edges, reachability, proof by enumeration); the async histories are also run with a provider whose sort_candidates fetches dependencies through the cache.",
    note=""),
  "C14": dict(engine=E1, cat="model_checking", ref="DESIGN.md §3 C14",
    technique="exhaustive enumeration of soft-requirement universes (F5) + brute-force oracle",
@@ -90,7 +90,7 @@ CHECKS["C06"] = dict(engine=E1, cat="exploration", ref="DESIGN.md §3 C06, §10"
    note="std's SipHash keys in conflict.rs vary per instance but are not controlled; a seed-control probe must realise >= 2 iteration orders or the run exits 2.")
 CHECKS["C17"] = dict(engine="E5 C++/Rust differential driver", cat="model_checking", ref="DESIGN.md §3 C17, §10",
    technique="universe enumeration pushed through the C++ bridge and the Rust API in one ASan/UBSan process with a layout-checking allocator; exhaustive container-operation sequences vs std::vector",
-   text="Every universe of F3 (<= 1/2 decorations), a slice of F1 and of F5 that the C++ interface can express is solved through resolvo::solve with a table-driven C++ DependencyProvider (6 ways of building the returned vectors incl. a reused scratch vector with capacity > size, with and without a pre-filled result) and through the Rust API: identical solution vector / error text, no Rust-side block survives a solve, every block is freed with the layout it was allocated with, ASan/UBSan/LSan silent; every sequence (depth 4/5) of container operations on Vector<SolvableId>/Vector<String> with 2 handles vs std::vector (incl. push_back of an element of the same vector through both overloads), String operations vs std::string (incl. self-assignment and assignment of views into the string's own data), struct layouts compared; a reduced pass runs under valgrind.",
+   text="Every universe of F3 (<= 1/2 decorations), a slice of F1 and of F5 that the C++ interface can express is solved through resolvo::solve with a table-driven C++ DependencyProvider (6 ways of building the returned vectors incl. a reused scratch vector with capacity > size, with and without a pre-filled result; consecutive solves use provider objects at alternating addresses and the previous provider is destroyed and poisoned) and through the Rust API: identical solution vector / error text, no Rust-side block survives a solve, every block is freed with the layout it was allocated with, ASan/UBSan/LSan silent; every sequence (depth 4/5) of container operations on Vector<SolvableId>/Vector<String> with 2 handles vs std::vector (incl. push_back of an element of the same vector through both overloads), String operations vs std::string (incl. self-assignment and assignment of views into the string's own data), struct layouts compared; a reduced pass runs under valgrind.",
    note="Unknown dependencies and missing packages cannot be expressed through the C++ interface; the Rust side of Vector is only reachable through the bridge.")
 
 NOT_APPLICABLE = {
